@@ -316,7 +316,7 @@ for _t, _f in (("raise RuntimeError('authentication required')", 'nfc.tag.tt3_so
                 ('nfc.tag.tt3_sony.FelicaLite._authenticate', 'self._sk = sk')])
 triage.add('C16', 'C16-R1', _k('ValueError', 'nfc.tag.tt1.Type1Tag.read_block', "raise ValueError('invalid block number')"),
            'internal callers pass 15, range(16, 256) or the literal blocks of the memory reader; all within 0..255',
-           [('nfc.tag.tt1.Type1Tag._dump', 'text:range(16, stop if stop is not None else 256)'),
+           [('nfc.tag.tt1.Type1Tag._dump', 'text:range(16, 256 if stop is None else stop)'),
             ('nfc.tag.tt1.Type1TagMemoryReader._read_from_tag', 'read_block_response = self._tag.read_block(15)')])
 triage.add('C16', 'C16-R1', _k('ValueError', 'nfc.tag.tt1.Type1Tag.write_block', "raise ValueError('invalid block number')"),
            'write-back addresses block i//8 with i < len(image) <= 2048 (sixteen 128 byte segments), dump writes the block it just read',
